@@ -77,6 +77,37 @@ def gen_xml(rnd, name, children, depth=0):
     return "<%s>%s</%s>" % (name, out, name)
 
 
+VALID_LEAF = {"ObjectLockEnabled": "Enabled", "Days": "1", "Years": "1", "Mode": "GOVERNANCE", "Status": "Enabled", "MfaDelete": "Disabled", "Key": "k1", "Value": "v1",
+              "Quiet": "true", "VersionId": "null", "PartNumber": "1", "ETag": "\"d41d8cd98f00b204e9800998ecf8427e\"", "ObjectOwnership": "BucketOwnerEnforced",
+              "RetainUntilDate": "2030-01-01T00:00:00Z", "ID": "root", "DisplayName": "root", "Type": "CanonicalUser", "Permission": "FULL_CONTROL",
+              "AllowedMethod": "GET", "AllowedOrigin": "*", "MaxAgeSeconds": "10", "Access": "fuzzuser", "Secret": "fuzzsecret", "Role": "user", "UserID": "0", "GroupID": "0",
+              "LocationConstraint": "us-east-1", "Expression": "select * from s3object", "ExpressionType": "SQL", "Tier": "Standard"}
+
+
+def partial_docs(root, children, limit=64):
+    """documents in which every leaf is either absent or carries a value of its own grammar: the documents a parser accepts although a
+    member its consumers dereference is missing (all subsets of the leaves, up to `limit`)"""
+    leaves = []
+    def walk(pfx, ch):
+        for k, v in ch.items():
+            if v is None: leaves.append(tuple(pfx + [k]))
+            else: walk(pfx + [k], v)
+    walk([], children)
+    if any(l[-1] not in VALID_LEAF for l in leaves) or len(leaves) > 6:
+        return []
+    out = []
+    for mask in range(1 << len(leaves)):
+        keep = {l for i, l in enumerate(leaves) if mask >> i & 1}
+        def render(pfx, name, ch):
+            if ch is None:
+                return "<%s>%s</%s>" % (name, VALID_LEAF[name], name) if tuple(pfx + [name]) in keep else ""
+            inner = "".join(render(pfx + [name] if pfx is not None else [], k, v) for k, v in ch.items())
+            return "<%s>%s</%s>" % (name, inner, name) if inner or pfx is None else ""
+        inner = "".join(render([], k, v) for k, v in children.items())
+        out.append('<%s xmlns="http://s3.amazonaws.com/doc/2006-03-01/">%s</%s>' % (root, inner, root))
+    return out[:limit]
+
+
 def path_docs(root, children):
     """systematic: for every element of the document tree, the document that reaches it and leaves it empty / self-closed / ill-typed"""
     out = []
@@ -170,9 +201,10 @@ def run(chk):
     n_fuzz = 1500 if quick else 12000
     chk.rule = ("a case is one request built from the C02 endpoint list with one to three fields replaced by values outside their grammar "
                 "(boundary integers, non-numbers, NUL, overlong, type-confused query parameters and headers; empty, truncated, deeply nested, "
-                "wrong-root XML and JSON bodies; malformed chunk framing, negative and huge sizes and lengths), sent with valid credentials (and "
+                "wrong-root XML and JSON bodies; for the small request documents every subset of well-typed members (a member consumers rely on may be absent); malformed chunk framing, negative and huge sizes and lengths), sent with valid credentials (and "
                 "a tenth without); after each: the response must be well formed, arrive within 10 s, the process must be alive and answer a probe, "
-                "and the gateway log must show no recovered panic. Non-trivial: at least one field outside its grammar; distinct by content.")
+                "and the gateway log must show no recovered panic; after every bucket configuration the gateway accepted, six ordinary requests that consult it (put, get, head, "
+                "two listings, create-multipart) must not answer 5xx. Non-trivial: at least one field outside its grammar; distinct by content.")
     gwbin = gobuild.build_gateway("verif")
     built = coq.ensure_built(chk, TARGETS)
     if built:
@@ -186,6 +218,7 @@ def run(chk):
         logpath = os.path.join(site.base, "gw-%d.log" % g.port)
         panics_seen = 0
         stuck = [0]
+        probes = [0]
 
         def after(label, method, r, dt, detail):
             nonlocal g, cl, panics_seen
@@ -208,6 +241,19 @@ def run(chk):
                 chk.fail("c20:panic:" + (where.decode() or label.split(" ")[0]), "a request made a handler panic (%s): %s" % (where.decode(), label), dict(row, panic=m[-1].decode("latin1")[:600] if m else ""))
             if bad:
                 chk.fail("c20:malformed-response:" + label.split(" ")[0], "%s -> %s" % (label, bad), row)
+            ep = label.split(" ")[0]
+            if 200 <= r.status < 300 and method in ("PUT", "DELETE", "POST") and ("Bucket?" in ep or ep.startswith("PutBucket")) and g.alive():
+                # a configuration the gateway accepted must not break the requests that consult it afterwards
+                probes[0] += 1
+                pk = "/bk1/cfgprobe-%d" % (probes[0] % 7)
+                for pm, pp, pq, pb in (("PUT", pk, {}, b"probe"), ("GET", pk, {}, b""), ("HEAD", pk, {}, b""), ("GET", "/bk1", {"list-type": "2", "max-keys": "3"}, b""),
+                                       ("GET", "/bk1", {"versions": "", "max-keys": "3"}, b""), ("POST", pk + "m", {"uploads": ""}, b"")):
+                    pr = cl.req(pm, pp, query=pq, body=pb, timeout=15)
+                    chk.traces += 1
+                    if pr.status >= 500 or pr.status == -1:
+                        chk.fail("c20:5xx-after-accepted-config:" + ep, "after %s was accepted with %d, %s %s answers %d %s" % (label, r.status, pm, pp, pr.status, pr.code),
+                                 dict(row, probe="%s %s" % (pm, pp), probe_status=pr.status, probe_code=pr.code, log=g.log_tail(800)))
+                        break
             if dt > 10:
                 chk.fail("c20:slow:" + label.split(" ")[0], "%s took %.1f s" % (label, dt), row)
                 stuck[0] += 1
@@ -263,6 +309,11 @@ def run(chk):
         for name, method, path, query, body, headers in with_schema:
             if name not in SCHEMAS:
                 continue
+            for doc in partial_docs(*SCHEMAS[name]):
+                d = doc.encode()
+                t0 = time.time(); r = cl.req(method, path, query=query, body=d, headers=headers, timeout=15); dt = time.time() - t0
+                chk.case((name, d), True); chk.count("partialdoc:%s:%dxx" % (method, r.status // 100 if r.status > 0 else 0))
+                after("%s body %s" % (name, d.decode()[:300]), method, r, dt, {"method": method, "path": path, "query": query, "body": d.decode()})
             for doc in path_docs(*SCHEMAS[name]):
                 for extra in (b"", body[body.find(b">") + 1:body.rfind(b"<")] if body.count(b"<") > 2 else b""):
                     d = doc.encode()
